@@ -4,20 +4,32 @@ Static source file: pymtl3 parses update blocks with inspect.getsourcelines, so 
 must live in a real module.  Nothing here is derived from the repository; pymtl3 is imported from
 $VERIF_REPO by the caller (common.use_repo()).
 
-Two families, each with its own harness hierarchy, positions and palette; all classes of one palette
-have the SAME port interface (that is what makes them exchangeable by replace_component):
+Three families, each with its own harness hierarchy, positions and per-position palettes; all
+classes that fit one position have the SAME port interface (that is what makes them exchangeable by
+replace_component) but differ in KIND (pure RTL, registers driving the port, internal method nets
+with no external method port, nested children with value nets between grand-children, internal
+constants and slice connections, placeholders, and - for a hosting position - wrapper classes):
 
   RTL  ports in_ : InPort(Bits8), en : InPort(Bits1), out : OutPort(Bits8);  construct(s, k)
-  CL   callee method ports enq(msg), deq(), plus a non-blocking interface peek (CalleeIfcCL)
+  PB   "parent blocks": five in-ports (one per kind of parent block that writes it), a struct
+       in-port, out-port, struct out-port and a nested child x; the harness reads / writes them
+       from @update, @update_ff, @update_once, lambda and @s.func blocks, whole / slice / field,
+       and reads a grand-child's port through the child
+  CL   callee method ports enq(msg), deq(), tag() (stateless), plus a non-blocking interface peek
+       (CalleeIfcCL)
 
-Position names are the strings used in Replace.tla (`a`, `c[0]`, `d[0][1]`, `m.g`, ...); the full
-name of the component at a position is "s." + position.
+Position names are the strings used in Replace.tla (`a`, `c[0]`, `d[0][1]`, `m`, `m.g`, ...); the
+full name of the component at a position is "s." + position.  A hosting position (`m`, `w`) has the
+nested position (`m.g`, `w.foo`) below it: its classes are constructed with the CLASS of the nested
+component as argument.
+
+FAMILIES (end of file) describes every family for harness/c15_proj.py.
 """
 from collections import deque
 
 from pymtl3 import *                                   # noqa: F401,F403
-from pymtl3.dsl import (CalleeIfcCL, CalleePort, M, Placeholder, U, RD, WR, method_port, non_blocking,
-                        update_once)
+from pymtl3.dsl import (CalleeIfcCL, CalleePort, CallerPort, M, Placeholder, U, RD, WR, method_port,
+                        non_blocking, update_once)
 
 # ======================================================================================
 # RTL palette
@@ -144,6 +156,47 @@ class Nest(Component):
 
 
 
+class AddCL(Component):
+    """method-only helper (no value port at all)"""
+    def construct(s, k=1):
+        s.k = k
+
+    @method_port
+    def add(s, x):
+        return x + s.k
+
+
+class Mix(Component):
+    """RTL interface, CL inside: a CallerPort connected to a sub-component's CalleePort (a method net
+    that lives entirely inside the component) and an update_once block; no external method port"""
+    def construct(s, k=1):
+        s.in_ = InPort(Bits8)
+        s.en = InPort(Bits1)
+        s.out = OutPort(Bits8)
+        s.adder = AddCL(k)
+        s.add = CallerPort()
+        s.add //= s.adder.add
+
+        @update_once
+        def up_mix():
+            s.out @= s.add(s.in_)
+
+
+class RegO(Component):
+    """an update_ff block drives the out-port itself (the port is the register)"""
+    def construct(s, k=1):
+        s.in_ = InPort(Bits8)
+        s.en = InPort(Bits1)
+        s.out = OutPort(Bits8)
+
+        @update_ff
+        def up_rego():
+            if s.reset:
+                s.out <<= 0
+            elif s.en:
+                s.out <<= s.in_ - k
+
+
 class Hold(Placeholder, Component):
     """placeholder: ports only"""
     def construct(s, k=1):
@@ -153,13 +206,13 @@ class Hold(Placeholder, Component):
 
 
 RTL_PALETTE = {"Comb": Comb, "Reg": Reg, "Lam": Lam, "Cons": Cons, "Func": Func, "Slc": Slc,
-               "Nest": Nest, "Hold": Hold}
+               "Nest": Nest, "Mix": Mix, "RegO": RegO, "Hold": Hold}
 
 # ======================================================================================
 # RTL harness hierarchy
 # ======================================================================================
 
-RTL_POSITIONS = ["a", "c[0]", "c[1]", "d[0][1]", "d[1][0]", "m.g"]
+RTL_POSITIONS = ["a", "c[0]", "c[1]", "d[0][1]", "d[1][0]", "m", "m.g"]
 RTL_FIXED = {"d[0][0]": "Comb", "d[1][1]": "Reg"}     # non-replaceable neighbours in the 2-D list
 RTL_K = {"a": 1, "c[0]": 2, "c[1]": 3, "d[0][0]": 4, "d[0][1]": 5, "d[1][0]": 6, "d[1][1]": 7, "m.g": 9}
 
@@ -181,6 +234,24 @@ class Mid(Component):
         s.add_constraints(RD(s.g.out) > U(up_mid))
 
 
+class MidB(Component):
+    """same interface as Mid, other kinds of blocks around the grand-child: an update_ff block writes
+    its in-port, a lambda reads its out-port"""
+    def construct(s, G):
+        s.in_ = InPort(Bits8)
+        s.out = OutPort(Bits8)
+        s.g = G(RTL_K["m.g"])
+        s.g.in_ //= s.in_
+
+        @update_ff
+        def ff_midb():
+            s.g.en <<= ~s.g.en
+
+        s.out //= lambda: s.g.out ^ 3
+
+
+RTL_HOSTS = {"Mid": Mid, "MidB": MidB}
+
 
 class RtlTop(Component):
     def construct(s, cfg):
@@ -195,7 +266,7 @@ class RtlTop(Component):
         s.c = [P[cfg["c[%d]" % i]](K["c[%d]" % i]) for i in range(2)]
         s.d = [[P[cfg.get("d[%d][%d]" % (i, j), RTL_FIXED.get("d[%d][%d]" % (i, j)))](K["d[%d][%d]" % (i, j)])
                 for j in range(2)] for i in range(2)]
-        s.m = Mid(P[cfg["m.g"]])
+        s.m = RTL_HOSTS[cfg["m"]](P[cfg["m.g"]])
 
         # plain child: connections from top-level ports
         s.a.in_ //= s.in_
@@ -241,6 +312,306 @@ class RtlTop(Component):
 
 
 # ======================================================================================
+# PB family: parent blocks of every kind x {read, write} x {in-port, out-port, slice, field,
+# grand-child port through the child}
+# ======================================================================================
+
+
+@bitstruct
+class Pair:
+    a: Bits4
+    b: Bits4
+
+
+def _pb_ports(s):
+    s.iu = InPort(Bits8)      # written by a parent @update block
+    s.if_ = InPort(Bits8)     # written by a parent @update_ff block (a register that is the child's port)
+    s.il = InPort(Bits8)      # written by a parent lambda
+    s.ifn = InPort(Bits8)     # written slice-wise (a @s.func helper / an @update block of the parent)
+    s.io = InPort(Bits8)      # written by a parent @update_once block
+    s.ist = InPort(Pair)      # written field-wise by the parent
+    s.o = OutPort(Bits8)
+    s.ost = OutPort(Pair)
+
+
+class PLeaf(Component):
+    def construct(s, k=1):
+        s.in_ = InPort(Bits8)
+        s.out = OutPort(Bits8)
+
+        @update
+        def up_leaf():
+            s.out @= s.in_ + k
+
+
+class PComb(Component):
+    """one @update block; reads / writes the struct ports field-wise (the same fields the parent
+    mentions)"""
+    def construct(s, k=1):
+        _pb_ports(s)
+        s.x = PLeaf(k)
+        s.x.in_ //= s.iu
+
+        @update
+        def up_pc():
+            s.o @= s.x.out + s.if_ + s.il + s.ifn + s.io
+            s.ost.a @= s.ist.b ^ k
+            s.ost.b @= s.ist.a
+
+
+class PReg(Component):
+    """update_ff registers: one block writes the out-port itself, another a wire connected to the
+    struct out-port"""
+    def construct(s, k=1):
+        _pb_ports(s)
+        s.x = PLeaf(k)
+        s.x.in_ //= s.if_
+        s.acc = Wire(Bits8)
+        s.rst = Wire(Pair)
+
+        @update_ff
+        def ff_pr():
+            if s.reset:
+                s.o <<= 0
+                s.acc <<= 0
+            else:
+                s.o <<= s.x.out + s.iu + s.acc
+                s.acc <<= s.il + s.ifn + s.io
+
+        @update_ff
+        def ff_pr2():
+            s.rst <<= s.ist
+
+        s.ost //= s.rst
+
+
+class PMix(Component):
+    """CL inside: an internal method net (CallerPort - sub-component CalleePort) and an update_once
+    block; no external method port"""
+    def construct(s, k=1):
+        _pb_ports(s)
+        s.x = PLeaf(k)
+        s.x.in_ //= s.iu
+        s.adder = AddCL(k)
+        s.add = CallerPort()
+        s.add //= s.adder.add
+
+        @update_once
+        def once_pm():
+            s.o @= s.add(s.x.out + s.if_) ^ s.il ^ s.ifn ^ s.io
+
+        @update
+        def up_pm():
+            s.ost @= s.ist
+
+
+class PNest(Component):
+    """more nested children: a value net between two grand-children, a constant, internal
+    connections between slices of ports and between struct fields"""
+    def construct(s, k=1):
+        _pb_ports(s)
+        s.x = PLeaf(k)
+        s.y = PLeaf(k + 1)
+        s.z = [PLeaf(k + 2 + i) for i in range(2)]
+        s.x.in_ //= s.iu
+        s.y.in_ //= s.x.out
+        s.z[0].in_ //= s.if_
+        s.z[1].in_ //= 7
+        s.w = Wire(Bits8)
+        s.w[0:4] //= s.y.out[0:4]
+        s.w[4:8] //= s.z[0].out[4:8]
+        s.ost.a //= s.ist.b
+        s.ost.b //= s.ist.a
+
+        @update
+        def up_pn():
+            s.o @= s.w + s.z[1].out + s.il + s.ifn + s.io
+
+
+PB_PALETTE = {"PComb": PComb, "PReg": PReg, "PMix": PMix, "PNest": PNest}
+PB_POSITIONS = ["c", "l[0]", "l[1]", "m", "m.g"]
+PB_K = {"c": 1, "l[0]": 2, "l[1]": 4, "m.g": 9}
+
+
+class PBMid(Component):
+    """hosts the grand-child position m.g; connections, a constant, @update, @update_ff and lambda
+    blocks at the level of the hosting component"""
+    def construct(s, G):
+        s.in_ = InPort(Bits8)
+        s.o = OutPort(Bits8)
+        s.q = OutPort(Bits4)
+        s.g = G(PB_K["m.g"])
+        s.g.iu //= s.in_
+        s.g.ifn //= 3
+        s.g.io //= s.in_
+
+        @update_ff
+        def ff_mid():
+            s.g.if_ <<= s.in_ + 2
+
+        s.g.il //= lambda: s.in_ ^ 9
+
+        @update
+        def up_mid():
+            s.g.ist.a @= s.in_[0:4]
+            s.g.ist.b @= s.in_[4:8]
+
+        s.o //= s.g.o
+        s.q //= s.g.ost.a
+
+
+class PBMidB(Component):
+    """same interface; every port of the grand-child is handled by another kind of block / connection
+    than in PBMid"""
+    def construct(s, G):
+        s.in_ = InPort(Bits8)
+        s.o = OutPort(Bits8)
+        s.q = OutPort(Bits4)
+        s.g = G(PB_K["m.g"])
+
+        @update
+        def up_midb():
+            s.g.iu @= s.in_
+            s.g.il @= s.in_ + 1
+
+        @update_ff
+        def ff_midb():
+            s.g.if_ <<= s.in_
+            s.g.io <<= s.in_ ^ 1
+
+        s.g.ifn //= lambda: s.in_ & 15
+        s.g.ist.a //= s.in_[0:4]
+        s.g.ist.b //= s.in_[4:8]
+        s.o //= lambda: s.g.o + 1
+
+        @update
+        def up_q():
+            s.q @= s.g.ost.a
+
+
+PB_HOSTS = {"PBMid": PBMid, "PBMidB": PBMidB}
+
+
+class PBTop(Component):
+    def construct(s, cfg):
+        P = PB_PALETTE
+        K = PB_K
+        s.in_ = InPort(Bits8)
+        s.en = InPort(Bits1)
+        s.out = [OutPort(Bits8) for _ in range(9)]
+        s.r0 = Wire(Bits8)
+        s.t_once = Wire(Bits8)
+        s.t0 = Wire(Bits8)
+        s.t1 = Wire(Bits4)
+        s.t2 = Wire(Bits4)
+        s.t3 = Wire(Bits8)
+        s.t4 = Wire(Bits8)
+        s.t5 = Wire(Bits4)
+        s.t6 = Wire(Bits8)
+
+        s.c = P[cfg["c"]](K["c"])
+        s.l = [P[cfg["l[%d]" % i]](K["l[%d]" % i]) for i in range(2)]
+        s.m = PB_HOSTS[cfg["m"]](P[cfg["m.g"]])
+
+        # ---- plain child c: every kind of block writes one of its in-ports ...
+        @update
+        def up_wu():                       # @update: whole in-port and a field of the struct in-port
+            s.c.iu @= s.in_ + 1
+            s.c.ist.a @= s.in_[0:4]
+
+        @update
+        def up_wu2():                      # @update: the other field and a slice of an in-port
+            s.c.ist.b @= s.in_[4:8]
+            s.c.ifn[4:8] @= s.in_[0:4]
+
+        @update_ff
+        def ff_w():                        # @update_ff: the child's in-port is a register of the parent;
+            s.c.if_ <<= s.in_ ^ 85         # the block also reads a slice of the child's out-port
+            s.r0 <<= zext(s.c.o[0:4], 8)
+
+        s.c.il //= lambda: s.in_ + 3       # lambda writes an in-port
+
+        @s.func
+        def f_w():                         # @s.func helper writes the other slice
+            s.c.ifn[0:4] @= s.in_[4:8]
+
+        @update
+        def up_f():
+            f_w()
+
+        @update_once
+        def once_w():                      # @update_once writes an in-port
+            s.c.io @= s.in_ - 1
+
+        @update_once
+        def once_r():                      # @update_once reads a slice of the out-port
+            s.t_once @= zext(s.c.o[4:8], 8)
+
+        # ---- ... and reads its out-ports (whole / field), a grand-child's port through it, and the
+        #      in-ports the parent drives
+        @update
+        def up_r():
+            s.t0 @= s.c.o + s.c.x.out
+
+        s.t1 //= lambda: s.c.ost.a + 1
+
+        @s.func
+        def f_r():
+            s.t2 @= s.c.ost.b
+
+        @update
+        def up_fr():
+            f_r()
+
+        s.t3 //= lambda: s.c.iu & s.c.if_
+
+        # ---- list elements: blocks over all elements, sibling connections, slices, constant, struct
+        @update
+        def up_l():
+            for i in range(2):
+                s.l[i].iu @= s.in_ + i
+
+        @update_ff
+        def ff_l():
+            for i in range(2):
+                s.l[i].if_ <<= s.c.o
+
+        s.l[0].il //= s.c.o
+        s.l[1].il //= s.l[0].o
+        s.l[0].ifn //= 5
+        s.l[1].ifn[0:4] //= s.in_[0:4]
+        s.l[1].ifn[4:8] //= s.l[0].o[4:8]
+        s.l[0].io //= lambda: zext(s.en, 8)
+        s.l[1].io //= s.in_
+        s.l[0].ist //= s.c.ost
+        s.l[1].ist //= s.l[0].ost
+
+        @update
+        def up_lr():
+            s.t4 @= s.l[0].o ^ s.l[1].o
+
+        s.t5 //= lambda: s.l[1].ost.a
+
+        # ---- hosting position m and grand-child m.g: a block two levels above the grand-child reads
+        #      its port
+        s.m.in_ //= s.c.o
+
+        @update
+        def up_deep():
+            s.t6 @= s.m.g.o + s.m.o
+
+        s.out[0] //= s.r0
+        s.out[1] //= s.t_once
+        s.out[2] //= s.t0
+        s.out[3] //= lambda: zext(s.t1, 8) + zext(s.t2, 8)
+        s.out[4] //= s.t3
+        s.out[5] //= s.t4
+        s.out[6] //= lambda: zext(s.t5, 8) + zext(s.m.q, 8)
+        s.out[7] //= s.t6
+        s.out[8] //= s.l[1].o
+
+
+# ======================================================================================
 # CL palette:  enq(msg) / deq() callee ports and a non-blocking `peek` interface
 # ======================================================================================
 
@@ -257,6 +628,10 @@ class QByp(Component):
     @method_port
     def deq(s):
         return s.q.pop() if s.q else None
+
+    @method_port
+    def tag(s):
+        return 1
 
     @non_blocking(lambda s: len(s.q) > 0)
     def peek(s):
@@ -275,6 +650,10 @@ class QPipe(Component):
     @method_port
     def deq(s):
         return s.q.pop() if s.q else None
+
+    @method_port
+    def tag(s):
+        return 2
 
     @non_blocking(lambda s: len(s.q) > 0)
     def peek(s):
@@ -302,6 +681,10 @@ class QCnt(Component):
     def deq(s):
         return s.q.pop() if s.q else None
 
+    @method_port
+    def tag(s):
+        return 3
+
     @non_blocking(lambda s: len(s.q) > 0)
     def peek(s):
         return s.q[-1]
@@ -313,10 +696,54 @@ class QNest(Component):
         s.enq = CalleePort()
         s.deq = CalleePort()
         s.peek = CalleeIfcCL()
+        s.tag = CalleePort()
         s.inner = QByp()
         s.inner.enq //= s.enq
         s.inner.deq //= s.deq
         s.inner.peek //= s.peek
+        s.inner.tag //= s.tag
+
+
+class Cnt(Component):
+    """RTL register: out <= out + inc"""
+    def construct(s):
+        s.inc = InPort(Bits8)
+        s.out = OutPort(Bits8)
+
+        @update_ff
+        def ff_cnt():
+            if s.reset:
+                s.out <<= 0
+            else:
+                s.out <<= s.out + s.inc
+
+
+class QReg(Component):
+    """method interface, RTL inside: a register sub-component fed by a constant through a wire (value
+    nets, a constant and an update_ff block inside a component of a CL design)"""
+    def construct(s):
+        s.q = deque()
+        s.cnt = Cnt()
+        s.step = Wire(Bits8)
+        s.step //= 2
+        s.cnt.inc //= s.step
+        s.add_constraints(M(s.enq) < M(s.deq), M(s.deq) < M(s.peek))
+
+    @method_port
+    def enq(s, msg):
+        s.q.appendleft((msg + int(s.cnt.out)) & 255)
+
+    @method_port
+    def deq(s):
+        return s.q.pop() if s.q else None
+
+    @method_port
+    def tag(s):
+        return 5
+
+    @non_blocking(lambda s: len(s.q) > 0)
+    def peek(s):
+        return s.q[-1]
 
 
 class QHold(Placeholder, Component):
@@ -324,10 +751,11 @@ class QHold(Placeholder, Component):
         s.enq = CalleePort()
         s.deq = CalleePort()
         s.peek = CalleeIfcCL()
+        s.tag = CalleePort()
 
 
-CL_PALETTE = {"QByp": QByp, "QPipe": QPipe, "QCnt": QCnt, "QNest": QNest, "QHold": QHold}
-CL_POSITIONS = ["q", "qs[0]", "qs[1]", "w.foo"]
+CL_PALETTE = {"QByp": QByp, "QPipe": QPipe, "QCnt": QCnt, "QNest": QNest, "QReg": QReg, "QHold": QHold}
+CL_POSITIONS = ["q", "qs[0]", "qs[1]", "w", "w.foo"]
 
 
 class CLMid(Component):
@@ -338,6 +766,7 @@ class CLMid(Component):
         s.foo.enq //= s.enq
         s.foo.deq //= s.deq
         s.seen = []
+        s.tags = []
         s.idle = 0
 
         @update_once
@@ -354,14 +783,42 @@ class CLMid(Component):
         s.add_constraints(M(s.foo.enq) < U(up_idle))
 
 
+class CLMidB(Component):
+    """same interface as CLMid; the grand-child's interface is called from a @s.func helper"""
+    def construct(s, G):
+        s.enq = CalleePort()
+        s.deq = CalleePort()
+        s.foo = G()
+        s.foo.deq //= s.deq
+        s.foo.enq //= s.enq
+        s.seen = []
+        s.tags = []
+        s.idle = 0
+
+        @s.func
+        def f_probe():                    # helper: calls that commute with everything else
+            s.foo.peek.rdy()
+            s.tags.append(s.foo.tag())
+
+        @update_once
+        def up_peekb():
+            f_probe()
+            if s.foo.peek.rdy():
+                s.seen.append(s.foo.peek() ^ 1)
+
+
+CL_HOSTS = {"CLMid": CLMid, "CLMidB": CLMidB}
+
+
 class ClTop(Component):
     def construct(s, cfg):
         P = CL_PALETTE
         s.q = P[cfg["q"]]()
         s.qs = [P[cfg["qs[%d]" % i]]() for i in range(2)]
-        s.w = CLMid(P[cfg["w.foo"]])
+        s.w = CL_HOSTS[cfg["w"]](P[cfg["w.foo"]])
         s.count = 0
         s.log = []
+        s.tags = []
 
         @update_once
         def up_src():
@@ -382,6 +839,18 @@ class ClTop(Component):
             if x is not None:
                 s.qs[1].enq(x ^ 1)
 
+        # method calls made inside a @s.func helper do not take part in the method constraints of the
+        # block that calls the helper, so the helper only calls what commutes with everything else:
+        # the stateless tag() port of a child and of a list element, and the rdy() of an interface
+        @s.func
+        def f_tag():
+            s.q.peek.rdy()
+            s.tags.append((s.q.tag(), s.qs[1].tag()))
+
+        @update_once
+        def up_tag():
+            f_tag()
+
         @update_once
         def up_x2():
             x = s.qs[1].deq()
@@ -392,3 +861,53 @@ class ClTop(Component):
         def up_sink():
             x = s.w.deq()
             s.log.append(("dq", x))
+            if s.w.foo.peek.rdy():        # the grand-child's interface, called through the child
+                s.log.append(("wp", s.w.foo.peek()))
+
+
+# ======================================================================================
+# family descriptors (harness/c15_proj.py: Family)
+#   palof     position -> names of the classes that fit there (first = base class)
+#   below     hosting position -> nested positions
+#   make      (position, class name, configuration) -> a new, not yet elaborated object for
+#             replace_component_with_obj (a hosting class gets the classes currently below it)
+#   pass_groups  simulation pass groups under which the mutated design and the design built from
+#             scratch are compared (SimpleSimPass breaks ties of its schedule with the global random
+#             generator: only for the families whose behaviour does not depend on the order of
+#             method calls)
+# ======================================================================================
+
+
+def _rtl_make(pos, cls, cfg):
+    if pos == "m":
+        return RTL_HOSTS[cls](RTL_PALETTE[cfg["m.g"]])
+    return RTL_PALETTE[cls](RTL_K[pos])
+
+
+def _pb_make(pos, cls, cfg):
+    if pos == "m":
+        return PB_HOSTS[cls](PB_PALETTE[cfg["m.g"]])
+    return PB_PALETTE[cls](PB_K[pos])
+
+
+def _cl_make(pos, cls, cfg):
+    if pos == "w":
+        return CL_HOSTS[cls](CL_PALETTE[cfg["w.foo"]])
+    return CL_PALETTE[cls]()
+
+
+def _palof(positions, leaf, hosts, host_pos):
+    return {p: (list(hosts) if p == host_pos else list(leaf)) for p in positions}
+
+
+FAMILIES = {
+    "RTL": dict(top=RtlTop, positions=RTL_POSITIONS, classes=dict(RTL_PALETTE, **RTL_HOSTS),
+                palof=_palof(RTL_POSITIONS, RTL_PALETTE, RTL_HOSTS, "m"), below={"m": ["m.g"]},
+                make=_rtl_make, driver="rtl", pass_groups=("DefaultPassGroup", "Mamba2020", "SimpleSimPass")),
+    "PB": dict(top=PBTop, positions=PB_POSITIONS, classes=dict(PB_PALETTE, **PB_HOSTS),
+               palof=_palof(PB_POSITIONS, PB_PALETTE, PB_HOSTS, "m"), below={"m": ["m.g"]},
+               make=_pb_make, driver="rtl", pass_groups=("DefaultPassGroup", "Mamba2020", "SimpleSimPass")),
+    "CL": dict(top=ClTop, positions=CL_POSITIONS, classes=dict(CL_PALETTE, **CL_HOSTS),
+               palof=_palof(CL_POSITIONS, CL_PALETTE, CL_HOSTS, "w"), below={"w": ["w.foo"]},
+               make=_cl_make, driver="cl", pass_groups=("DefaultPassGroup", "Mamba2020")),
+}
